@@ -19,7 +19,7 @@ HOOK_COMMITS = []
 PROPS = {
     "C01": dict(
         modules=["Whawty.Props.C01", "Whawty.Props.GenFiles"],
-        suites=[("hdrv", "c01")],
+        suites=[("hdrv", "c01"), ("overlay", "v11s")],
         level_text="Store operations are pure functions on a directory map following store.go / userhash.go branch by "
                    "branch; write-then-authenticate (verdict = digest equality with the last written password, via the "
                    "proved record and base64 round trips), frame theorems for every other user, set-admin / remove "
@@ -397,7 +397,7 @@ PROPS = {
     ),
     "C12": dict(
         modules=["Whawty.Props.C12"],
-        suites=[("overlay", "v12")],
+        suites=[("overlay", "v12"), ("overlay", "v11s")],
         level_text="upgradeable_iff (reported upgradeable exactly when the record's parameter set differs from the "
                    "default), upgrade_same_password (the repaired upgrade step = re-authenticate, then update: the record is "
                    "untouched or rewritten under the default set with exactly the same accepted passwords, admin flag "
